@@ -36,7 +36,7 @@ var c11sTokens = []string{
 	"34=2", "34", "34=", "=34", "34=x", "34=-1", "34=99999999999999999999",
 	"35", "35=", "35=A",
 	"49=CLI", "49", "56=", "52=20240101-00:00:00.000", "52=x",
-	"7=1", "7", "7=", "16=0", "16", "16=x",
+	"7=1", "7", "7=", "16=0", "16", "16=x", "7=-9223372036854775808", "7=-4611686018427387904", "7=-1", "16=-1", "16=9223372036854775807", "7=9223372036854775807",
 	"36=5", "36", "43=Y", "123=Y", "123",
 	"98=0", "98", "108=1", "108", "108=", "141=Y", "553=u", "554",
 	"112=T", "112", "112=",
